@@ -59,6 +59,7 @@ EXPECT = {
     'D3': [('FixtureLint::Newton', 'ssig/sig')],
     'OV1': [('FixtureLint::LengthOk', 'product@')],
     'NB1': [('FixtureLint::IsNan', 's/t')],
+    'RW1': [('FixtureLint::Canon', "replace(b'\\xc2\\xb0')"), ('FixtureLint::Canon', 'replace(b"\'\'")')],
     'CP1': [('FixtureLint::Pad', 'easting/northing')],
     'X7r': [('FixtureShared::HalfFilled', 'alpha_')],
     'K7': [('FixtureRaster::probe', 'B1 filepos column')],
@@ -130,6 +131,9 @@ def run_controls(rules):
         elif r == 'NB1':
             from .rules import lint
             res = lint.rule_NB1(fx, None)[0]
+        elif r == 'RW1':
+            from .rules import rewrite
+            res = rewrite.rule_RW1(fx, None)[0]
         elif r == 'CP1':
             from .rules import lint
             res = lint.rule_CP1(fx, None)[0]
